@@ -1,10 +1,10 @@
 package c08fault
 
 import (
-	"math"
 	"context"
 	"errors"
 	"fmt"
+	"math"
 	"reflect"
 	"testing"
 
